@@ -521,7 +521,7 @@ class DAG(nx.DiGraph):
             )
 
         if (self.to_undirected().edges() == model.to_undirected().edges()) and (
-            self.get_immoralities() == model.get_immoralities()
+            self._get_vstructures() == model._get_vstructures()
         ):
             return True
         return False
@@ -553,6 +553,21 @@ class DAG(nx.DiGraph):
                 ):
                     immoralities.add(tuple(sorted(parents)))
         return immoralities
+
+    def _get_vstructures(self):
+        """
+        Returns the v-structures X -> Z <- Y (X, Y non-adjacent) of the model as
+        a set of (frozenset({X, Y}), Z) pairs, i.e. the immoralities together
+        with the node at which the two parents collide.
+        """
+        vstructures = set()
+        for node in self.nodes():
+            for parents in itertools.combinations(self.predecessors(node), 2):
+                if not self.has_edge(parents[0], parents[1]) and not self.has_edge(
+                    parents[1], parents[0]
+                ):
+                    vstructures.add((frozenset(parents), node))
+        return vstructures
 
     def is_dconnected(self, start, end, observed=None):
         """
